@@ -15,6 +15,7 @@ import (
 	"hash/fnv"
 	"math/rand"
 	"strconv"
+	"time"
 
 	"github.com/elastos/Elastos.ELA/database/ffldb"
 
@@ -62,6 +63,7 @@ type run struct {
 	its       [iterSlots]*iterState
 	nodeConst int64 // per-node overhead learnt from the first insertion; -1 unknown
 	stop      bool
+	hung      bool // a step exceeded opDeadline; its goroutine was abandoned
 }
 
 func (r *run) key(idx int) []byte {
@@ -137,18 +139,34 @@ func (e Engine) Execute(c *core.Ctx) {
 	}
 }
 
+// opDeadline bounds one step in real time. Treap operations on a few dozen
+// keys take microseconds; a step that is still running after this long is
+// walking a structure that has become cyclic (an ordered map whose walk or
+// lookup does not end is a C19 violation, not harness trouble).
+const opDeadline = 20 * time.Second
+
 func (r *run) guard(op string, f func()) {
-	defer func() {
-		if x := recover(); x != nil {
+	done := make(chan interface{}, 1)
+	go func() {
+		defer func() { done <- recover() }()
+		f()
+	}()
+	select {
+	case x := <-done:
+		if x != nil {
 			r.c.Check()
-			if r.c.Violate("C19", "no-panic", "C19/panic/"+op, "panic in treap code during %s: %v", op, x) {
-				r.stop = true
-			}
+			r.c.Violate("C19", "no-panic", "C19/panic/"+op, "panic in treap code during %s: %v", op, x)
 			// state of model and treap may have diverged: stop this run
 			r.stop = true
 		}
-	}()
-	f()
+	case <-time.After(opDeadline):
+		// the step's goroutine is abandoned (it keeps spinning until the
+		// worker process ends); nothing else of this run is executed
+		r.c.Check()
+		r.c.Violate("C19", "terminates", "C19/operation-does-not-terminate/"+op, "treap operation %s still running after %v: the structure no longer is a finite tree", op, opDeadline)
+		r.stop = true
+		r.hung = true
+	}
 }
 
 func (r *run) fail(oracle, sig, format string, a ...interface{}) {
